@@ -331,3 +331,429 @@ def coq_cg_case(o):
         coq_cparams(sp["ctrl"]), coq_stds(stds), vt(rec.opA), vt(rec.prec), C.cbool(sp.get("prec") is not None),
         dots, nt(rec.norm2), nt(rec.norminf), C.copt(b, cvec), C.cz(sp["nreset"]), cvec(sp["x0"]),
         o["n"] + 2, ST[o["status"]], o["n"], cvec(o["pos"]), cvec(o["grad"]), cf(o["value"]))
+
+
+def true_quantities(o, x):
+    M = o["M"]
+    sp = o["spec"]
+    cplx = bool(sp.get("complex"))
+    b = None
+    if sp.get("b") is not None:
+        b = np.array([complex(*t) for t in sp["b"]]) if cplx else np.array(sp["b"], dtype=np.float64)
+    Ax = M @ x
+    res = Ax if b is None else Ax - b
+    E = 0.5 * np.real(np.vdot(x, Ax)) - (0.0 if b is None else np.real(np.vdot(b, x)))
+    scale = float(np.linalg.norm(M, 2) * np.linalg.norm(x) + (0.0 if b is None else np.linalg.norm(b)) + 1e-300)
+    return res, float(E), scale
+
+
+def cg_oracle(o):
+    """The property on one recorded CG run, from dense NumPy quantities only."""
+    sp = o["spec"]
+    c = sp["ctrl"]
+    if o.get("exception"):
+        return "ConjugateGradient/%s raised %s" % (c["kind"], o["exception"])
+    x = o["pos"]
+    res, E, scale = true_quantities(o, x)
+    if np.linalg.norm(o["grad"] - res) > 1e-8 * scale:
+        return "energy.gradient differs from A x - b by %.3g" % float(np.linalg.norm(o["grad"] - res))
+    escale = scale * (np.linalg.norm(x) + 1e-300) + abs(E)
+    if abs(o["value"] - E) > 1e-8 * escale + 1e-300:
+        return "energy.value %r differs from 1/2 x^H A x - Re b^H x = %r" % (o["value"], E)
+    st = o["status"]
+    if st == 2:
+        return "ERROR reported for a positive definite system with a positive definite preconditioner"
+    if st != 0:
+        return "status %r returned (neither CONVERGED nor ERROR)" % st
+    sts = o["statuses"]
+    if not sts or sts[-1] != 0:
+        # CONVERGED without the controller saying so: only legitimate for gamma == 0
+        if np.linalg.norm(res) > 1e-8 * scale:
+            return "CONVERGED without the controller's verdict although the residual is %.3g" % float(np.linalg.norm(res))
+        return None
+    k = len(sts) - 1
+    if c["limit"] is not None and k >= c["limit"]:
+        return None
+    if c["level"] <= 0:
+        return None
+    P = o["rec"].check_pos
+    tq = [true_quantities(o, p) for p in P]
+    rk, Ek, _ = tq[k]
+    kind = c["kind"]
+    if kind == "gradnorm":
+        thr = []
+        if c["tol_abs"] is not None:
+            thr.append(c["tol_abs"])
+        if c["tol_rel"] is not None:
+            thr.append(c["tol_rel"] * float(np.linalg.norm(tq[0][0])))
+        ok = bool(thr) and np.linalg.norm(rk) <= max(thr) * (1 + 1e-6) + 1e-9 * scale
+        what = "residual norm %.3g vs thresholds %r" % (float(np.linalg.norm(rk)), thr)
+    elif kind == "gradinf":
+        ok = c["tol"] is not None and abs(Ek) > 0 and np.max(np.abs(rk)) / abs(Ek) <= c["tol"] * (1 + 1e-6) + 1e-9 * scale / abs(Ek)
+        what = "inf-norm/|E| = %.3g vs %r" % (float(np.max(np.abs(rk)) / (abs(Ek) + 1e-300)), c["tol"])
+    elif kind == "deltaE":
+        Ep = tq[k - 1][1] if k > 0 else None
+        sc = max(abs(Ep), abs(Ek)) if k > 0 else 0.0
+        rel = (abs(Ep - Ek) / sc if sc != 0 else 0.0) if k > 0 else None
+        ok = k > 0 and rel < c["tol"] + 1e-11
+        what = "relative energy change %r vs %r" % (rel, c["tol"])
+    elif kind == "absdeltaE":
+        Ep = tq[k - 1][1] if k > 0 else None
+        ok = k > 0 and abs(Ep - Ek) < c["tol"] + 1e-11 * (abs(Ek) + escale)
+        what = "energy change %r vs %r" % (None if k == 0 else abs(Ep - Ek), c["tol"])
+    else:
+        w = [t[1] for t in tq[max(0, k - c["memlen"] + 1):k + 1]]
+        ok = k > 0 and len(w) > 0 and float(np.std(w)) < c["tol"] + 1e-11 * (abs(Ek) + escale)
+        what = "std of the last energies %r vs %r" % (float(np.std(w)) if w else None, c["tol"])
+    if not ok:
+        return "%s: CONVERGED at check %d, limit not reached, criterion not met on the true quantities (%s)" % (kind, k, what)
+    return None
+
+
+# --------------------------------------------------------------------------------------------------
+# InversionEnabler
+# --------------------------------------------------------------------------------------------------
+
+def run_ie_case(spec):
+    """InversionEnabler around an operator of capability `cap`; which modes of the operator and of the
+    approximation get applied, and what comes out."""
+    import nifty.cl as ift
+    quiet()
+    n = spec["n"]
+    rng = np.random.Generator(np.random.PCG64([31, spec["seed"]]))
+    dom = ift.DomainTuple.make(ift.UnstructuredDomain((n,)))
+    G = rng.integers(-2, 3, size=(n, n)) + 1j * rng.integers(-2, 3, size=(n, n))
+    M = G.conj().T @ G + (1 + int(rng.integers(0, 3))) * np.eye(n)
+    mats = {1: M, 2: M.conj().T, 4: np.linalg.inv(M), 8: np.linalg.inv(M).conj().T}
+    D = np.diag(np.diag(M).real).astype(np.complex128)
+    amats = {1: D, 2: D.conj().T, 4: np.linalg.inv(D), 8: np.linalg.inv(D).conj().T}
+
+    class CapOp(ift.EndomorphicOperator):
+        def __init__(self, mats, cap, log):
+            self._mats, self._log = mats, log
+            self._domain = dom
+            self._capability = cap
+
+        def apply(self, x, mode):
+            self._check_input(x, mode)
+            self._log.append(int(mode))
+            return ift.Field.from_raw(dom, self._mats[mode] @ x.asnumpy())
+
+    log_op, log_ap = [], []
+    op = CapOp(mats, spec["cap"], log_op)
+    ap = CapOp(amats, 15, log_ap) if spec.get("approx") else None
+    ic = make_controller(spec["ctrl"])
+    xv = rng.integers(-4, 5, size=n) + 1j * rng.integers(-4, 5, size=n)
+    x = ift.Field.from_raw(dom, xv.astype(np.complex128))
+    out = {"spec": spec, "exception": None}
+    with warnings.catch_warnings():
+        warnings.simplefilter("ignore")
+        try:
+            ie = ift.InversionEnabler(op, ic, approximation=ap)
+            out["capability"] = int(ie.capability)
+            y = ie.apply(x, spec["mode"])
+            out["y"] = y.asnumpy()
+            out["refused"] = False
+        except NotImplementedError:
+            out["refused"] = True
+        except (ZeroDivisionError, IndexError) as ex:
+            out["exception"] = type(ex).__name__
+            out["refused"] = False
+    out["log_op"], out["log_ap"] = log_op, log_ap
+    if spec["mode"] in mats:
+        out["expected"] = mats[spec["mode"]] @ xv
+    return out
+
+
+def coq_ie_case(o):
+    sp = o["spec"]
+    if o["refused"]:
+        obs = "IeRefuse"
+    elif not o["log_ap"] and len(o["log_op"]) == 1 and o["log_op"][0] == sp["mode"] and not sp.get("solve_seen"):
+        obs = "(IeDirect %d)" % o["log_op"][0]
+    else:
+        so, sa = set(o["log_op"]), set(o["log_ap"])
+        if len(so) != 1 or (sp.get("approx") and len(sa) != 1):
+            return "false"
+        obs = "(IeSolve %d %d)" % (so.pop(), sa.pop() if sa else sp["mode"])
+    return ("plan_eqb (ie_apply t_ilog t_validMode t_modeTable t_addInverse t_INVERSE_BIT %d %d) %s"
+            " && Nat.eqb (nth %d t_addInverse 0) %d" % (sp["cap"], sp["mode"], obs, sp["cap"], o.get("capability", -1) if o.get("capability") is not None else 0))
+
+
+def ie_oracle(o):
+    sp = o["spec"]
+    if o["exception"]:
+        return "InversionEnabler(%s).apply raised %s" % (sp["ctrl"]["kind"], o["exception"])
+    mode, cap = sp["mode"], sp["cap"]
+    inv = {1: 4, 4: 1, 2: 8, 8: 2}
+    if mode not in inv:
+        return None if o["refused"] else "invalid mode %d was not refused" % mode
+    possible = bool(cap & mode) or bool(cap & inv[mode])
+    if o["refused"]:
+        return "mode %d refused although the wrapped operator (capability %d) offers it or its inverse" % (mode, cap) if possible else None
+    if not possible:
+        return "mode %d not refused although capability %d offers neither it nor its inverse" % (mode, cap)
+    err = float(np.linalg.norm(o["y"] - o["expected"]) / (np.linalg.norm(o["expected"]) + 1e-300))
+    if err > 1e-6:
+        return "InversionEnabler mode %d on capability %d: relative error %.3g against the dense solution" % (mode, cap, err)
+    return None
+
+
+# --------------------------------------------------------------------------------------------------
+# case generation
+# --------------------------------------------------------------------------------------------------
+
+def gen_ctrl(rng, kind, n_hint=5, tight=False):
+    lvl = int(rng.choice([1, 1, 1, 2, 3]))
+    lim = [None, None, None, 0, 1, 2, n_hint, 3 * n_hint][int(rng.integers(0, 8))]
+    tol = float(10.0 ** int(rng.integers(-10, -2)))
+    if tight:
+        lvl, lim, tol = 1, 500, 1e-11
+    c = {"kind": kind, "level": lvl, "limit": lim}
+    if kind == "gradnorm":
+        u = int(rng.integers(0, 4)) if not tight else 0
+        c["tol_abs"] = tol if u in (0, 2) else None
+        c["tol_rel"] = float(10.0 ** int(rng.integers(-10, -2))) if u in (1, 2) else None
+        if u == 3 and c["limit"] is None:
+            c["limit"] = 3 * n_hint          # no tolerance at all: only the limit ends the run
+    elif kind == "stoch":
+        c["tol"] = tol
+        c["memlen"] = 10 if tight else int(rng.choice([1, 2, 3, 10]))
+        if c["limit"] is None and not tight:
+            c["limit"] = 4 * n_hint + 10
+    else:
+        c["tol"] = tol
+    return c
+
+
+def gen_cg_spec(rng, i, nmax=10, cplx=False):
+    n = int(rng.integers(1, nmax + 1))
+    if cplx:
+        G = rng.integers(-3, 4, size=(n, n)) + 1j * rng.integers(-3, 4, size=(n, n))
+        A = G.conj().T @ G + int(rng.integers(1, 4)) * np.eye(n)
+        enc = lambda v: [[float(np.real(t)), float(np.imag(t))] for t in v]
+        Aenc = [enc(row) for row in A]
+        b = enc(rng.integers(-5, 6, size=n) + 1j * rng.integers(-5, 6, size=n))
+        x0 = enc(np.zeros(n)) if rng.random() < 0.7 else enc(rng.integers(-3, 4, size=n) + 0j)
+    else:
+        G = rng.integers(-3, 4, size=(n, n))
+        A = G.T @ G + int(rng.integers(1, 4)) * np.eye(n, dtype=int)
+        Aenc = A.astype(float).tolist()
+        b = rng.integers(-5, 6, size=n).astype(float).tolist()
+        x0 = [0.0] * n if rng.random() < 0.7 else rng.integers(-3, 4, size=n).astype(float).tolist()
+    u = rng.random()
+    if u < 0.08:
+        b = None
+    elif u < 0.14:
+        b = [[0.0, 0.0]] * n if cplx else [0.0] * n
+    diag = [float(np.real(A[j][j])) for j in range(n)]
+    v = rng.random()
+    prec = None if v < 0.5 else ([1.0 / d for d in diag] if v < 0.8 else rng.uniform(0.2, 3.0, size=n).tolist())
+    spec = {"A": Aenc, "b": b, "x0": x0, "prec": prec, "nreset": int(rng.choice([1, 2, 3, 5, 20])),
+            "ctrl": gen_ctrl(rng, KINDS[i % 5], n), "complex": cplx}
+    return spec
+
+
+def gen_ctrl_spec(rng, i):
+    kind = KINDS[i % 5]
+    c = gen_ctrl(rng, kind, 6)
+    if rng.random() < 0.1:
+        c["level"] = int(rng.choice([0, -1]))
+    if rng.random() < 0.05:
+        c["limit"] = -1
+    if kind == "gradinf" and rng.random() < 0.1:
+        c["tol"] = None
+    L = int(rng.integers(1, 26))
+    v = float(rng.choice([0.0, 1.0, -3.5, 100.0]))
+    floor = float(rng.choice([0.0, -1.0, 2.5]))
+    g = float(10.0 ** int(rng.integers(-2, 3)))
+    seq = []
+    for k in range(L):
+        u = rng.random()
+        if u < 0.15 and seq:
+            pass                                         # plateau: exactly the same energy again
+        elif u < 0.2:
+            v = 0.0
+        elif u < 0.22:
+            v = float("nan")
+        else:
+            v = floor + (v - floor) * float(rng.choice([0.5, 0.1, 0.999999, 1e-6])) if not math.isnan(v) else floor
+        g = g * float(rng.choice([0.3, 0.01, 1.0, 1.7, 0.0 if rng.random() < 0.05 else 0.5]))
+        seq.append([v, g, g * float(rng.uniform(0.3, 1.0))])
+    return {"ctrl": c, "seq": seq}
+
+
+def gen_ie_specs(rng, quick):
+    out = []
+    s = 0
+    for cap in range(16):
+        for mode in (1, 2, 4, 8):
+            s += 1
+            out.append({"n": int(rng.integers(1, 6)), "seed": int(rng.integers(0, 1 << 30)), "cap": cap, "mode": mode,
+                        "approx": bool(s % 2), "ctrl": gen_ctrl(rng, KINDS[s % 5], 5, tight=True)})
+    for mode in (0, 3, 5, 6, 7):
+        out.append({"n": 2, "seed": 1, "cap": 15, "mode": mode, "approx": False, "ctrl": gen_ctrl(rng, "gradnorm", 5, tight=True)})
+    return out
+
+
+F1_SIG = {"fn": "DeltaEnergyController.check", "defect": "0/0 for two zero energies"}
+
+
+def classify_exception(kind, exc):
+    if kind == "deltaE" and exc == "ZeroDivisionError":
+        return dict(F1_SIG)
+    return {"fn": kind, "defect": exc}
+
+
+class C14(C.Check):
+    prop = "C14"
+    coq_dir = "C14"
+    trusted_base = [
+        "Coq 8.16.1 kernel (coqc; vm_compute and primitive floats for the correspondence evaluation); all C14 theorems are closed under the global context",
+        "tr/c14_tables.py: translator of the literal mode/capability tables of LinearOperator (ast, fail closed)",
+        "hand-written model coq/C14/Model.v of ConjugateGradient.__call__, QuadraticEnergy, the five controllers and InversionEnabler.apply (tied by bit-exact correspondence)",
+        "operator, preconditioner, inner product (Field.s_vdot), norms and np.std are oracles of the model; in the replay they are the recorded input/output pairs of the implementation (Field.s_vdot / Field.norm / QuadraticEnergy.__init__ are wrapped by recording pass-throughs during the run)",
+        "NumPy elementwise float64 arithmetic is IEEE-754 without fusion (what makes the bit-exact replay possible)",
+    ]
+    assumptions = [
+        "residual invariant: the operator is linear and vector subtraction satisfies (u-w)+w = u, (u-w)-v = (u-v)-w (exact arithmetic); in floating point the recurrence residual drifts, which is what nreset is for",
+        "controllers: convergence_level >= 1 for 'criterion met'; with level <= 0 every controller converges at once",
+        "the while-True loop of CG is modelled with fuel; all theorems hold for every fuel",
+        "finite termination of CG in exact arithmetic (C14_exact_termination of the design) is not proved",
+    ]
+
+    def __init__(self):
+        self.ctrl_obs, self.cg_obs, self.cg_big, self.ie_obs = [], [], [], []
+
+    def translate(self, ctx):
+        from tr import c14_tables
+        c14_tables.generate(ctx.repo, os.path.join(C.COQ, "C14"))
+
+    def _cases(self, ctx):
+        rng = ctx.rng(14)
+        nctrl, ncg, nbig = (150, 60, 40) if ctx.quick else (1500, 400, 300)
+        cor = ctx.corpus()
+        ctrl = [c["spec"] for c in cor if c.get("kind") == "ctrl"] + [gen_ctrl_spec(rng, i) for i in range(nctrl)]
+        cg = [c["spec"] for c in cor if c.get("kind") == "cg"] + [gen_cg_spec(rng, i) for i in range(ncg)]
+        big = [gen_cg_spec(rng, i, nmax=40, cplx=(i % 2 == 0)) for i in range(nbig)]
+        ie = [c["spec"] for c in cor if c.get("kind") == "ie"] + gen_ie_specs(rng, ctx.quick)
+        return ctrl, cg, big, ie
+
+    def correspondence(self, ctx, res):
+        quiet()
+        ctrl, cg, big, ie = self._cases(ctx)
+        self.ctrl_obs = [run_ctrl_case(s) for s in ctrl]
+        self.cg_obs = [run_cg_case(s) for s in cg]
+        self.cg_big = big
+        self.ie_obs = [run_ie_case(s) for s in ie]
+        checks, owner = [], []
+        for o in self.ctrl_obs:
+            checks.append("false" if o["exception"] else coq_ctrl_case(o))
+            owner.append(("ctrl", o))
+        for o in self.cg_obs:
+            checks.append("false" if o.get("exception") else coq_cg_case(o))
+            owner.append(("cg", o))
+        for o in self.ie_obs:
+            checks.append("false" if o["exception"] else coq_ie_case(o))
+            owner.append(("ie", o))
+        bad = C.eval_cases(self.prop, "corr", HEADER, checks, shard=60, jobs=5)
+        for i in bad[:6]:
+            kind, o = owner[i]
+            exc = o.get("exception")
+            d = {"kind": kind, "spec": o["spec"], "exception": exc}
+            if kind == "ctrl":
+                d["statuses"] = o["statuses"]
+            elif kind == "cg" and not exc:
+                d.update(status=o["status"], n=o["n"], statuses=o["statuses"], pos=o["pos"].tolist())
+            elif kind == "ie":
+                d.update(log_op=o["log_op"], log_ap=o["log_ap"], refused=o["refused"])
+            name = {"ctrl": "iteration controller", "cg": "ConjugateGradient.__call__", "ie": "InversionEnabler.apply"}[kind]
+            res.add_broken("correspondence", name + " vs coq/C14/Model.v", d)
+        nontriv = {C.stable_hash(o["spec"]) for o in self.ctrl_obs if len(o["statuses"]) >= 2}
+        nontriv |= {C.stable_hash(o["spec"]) for o in self.cg_obs if not o.get("exception") and o["n"] >= 1}
+        nontriv |= {C.stable_hash(o["spec"]) for o in self.ie_obs if o["log_op"]}
+        dist = {}
+        for o in self.cg_obs:
+            if o.get("exception"):
+                key = "%s:exception" % o["spec"]["ctrl"]["kind"]
+            else:
+                key = "%s:%s" % (o["spec"]["ctrl"]["kind"], ST[o["status"]])
+            dist[key] = dist.get(key, 0) + 1
+        res.coverage.update({
+            "evaluations": len(checks), "distinct_nontrivial": len(nontriv),
+            "rule": "controllers: 5 kinds x generated parameter settings (levels incl. <= 0, limits incl. 0 and negative, missing tolerances) x generated observation sequences with plateaus, exact zeros and NaN; non-trivial = at least two calls.  CG: real HPD systems n<=10 with small-integer entries (A = G^T G + k I), with/without b, zero / integer start, no / Jacobi / random positive diagonal preconditioner, nreset in {1,2,3,5,20}, every controller kind; non-trivial = at least one position update.  InversionEnabler: all 16 capabilities x 4 modes (+ invalid modes), with and without approximation; non-trivial = the wrapped operator was applied.  distinct by spec hash",
+            "samples": [{"spec": {k: v for k, v in o["spec"].items() if k != "A"}, "status": o.get("status"), "n": o.get("n")} for o in self.cg_obs[2:5]],
+            "input_distribution": {"controller_sequences": len(self.ctrl_obs), "cg_runs_replayed": len(self.cg_obs),
+                                   "cg_outcomes": dist, "cg_with_reset_branch": sum(1 for o in self.cg_obs if not o.get("exception") and o["n"] >= o["spec"]["nreset"]),
+                                   "cg_with_preconditioner": sum(1 for o in self.cg_obs if o["spec"].get("prec") is not None),
+                                   "inversion_enabler_cases": len(self.ie_obs)},
+            "disagreements": len(bad), "exhaustive": False,
+        })
+        return bad
+
+    def oracle(self, ctx, res, hints, budget):
+        quiet()
+        n = 0
+        seen = set()
+
+        def report(kind, spec, what, sig):
+            key = C.stable_hash(sig)
+            if key in seen and len(res.failing) >= 2:
+                return
+            seen.add(key)
+            res.add_failing(sig, what, {"kind": kind, "spec": spec})
+
+        for o in self.ctrl_obs:
+            n += 1
+            f = ctrl_oracle(o)
+            if f:
+                report("ctrl", o["spec"], f, classify_exception(o["spec"]["ctrl"]["kind"], o["exception"]) if o["exception"]
+                       else {"fn": "IterationController.check", "kind": o["spec"]["ctrl"]["kind"]})
+        for o in self.cg_obs + [run_cg_case(s) for s in self.cg_big]:
+            n += 1
+            f = cg_oracle(o)
+            if f:
+                k = o["spec"]["ctrl"]["kind"]
+                report("cg", o["spec"], f, classify_exception(k, o["exception"]) if o.get("exception")
+                       else {"fn": "ConjugateGradient.__call__", "kind": k, "class": f.split(":")[0][:40]})
+        for o in self.ie_obs:
+            n += 1
+            f = ie_oracle(o)
+            if f:
+                k = o["spec"]["ctrl"]["kind"]
+                report("ie", o["spec"], f, classify_exception(k, o["exception"]) if o["exception"]
+                       else {"fn": "InversionEnabler.apply", "cap": o["spec"]["cap"], "mode": o["spec"]["mode"]})
+        if budget > 1 and len(res.failing) == 0:
+            rng = ctx.rng(1499)
+            for i in range(400):
+                s = gen_cg_spec(rng, i, nmax=20, cplx=(i % 3 == 0))
+                n += 1
+                o = run_cg_case(s)
+                f = cg_oracle(o)
+                if f:
+                    k = s["ctrl"]["kind"]
+                    report("cg", s, f, classify_exception(k, o["exception"]) if o.get("exception")
+                           else {"fn": "ConjugateGradient.__call__", "kind": k, "class": f.split(":")[0][:40]})
+                    break
+            for i in range(1500):
+                if res.failing:
+                    break
+                s = gen_ctrl_spec(rng, i)
+                n += 1
+                o = run_ctrl_case(s)
+                f = ctrl_oracle(o)
+                if f:
+                    report("ctrl", s, f, {"fn": "IterationController.check", "kind": s["ctrl"]["kind"]})
+        res.coverage["impl_property_evaluations"] = n
+
+    def replay(self, ctx, rp):
+        quiet()
+        i = rp["input"]
+        if i["kind"] == "ctrl":
+            return ctrl_oracle(run_ctrl_case(i["spec"])) is not None
+        if i["kind"] == "cg":
+            return cg_oracle(run_cg_case(i["spec"])) is not None
+        return ie_oracle(run_ie_case(i["spec"])) is not None
+
+
+CHECK = C14()
